@@ -609,6 +609,160 @@ def _rewrite_find(body, i, verdicts, orig_of, start_chars):
     return True
 
 
+# ---------------------------------------------------- I2': find and jump
+def _is_find_jump(body, i):
+    """body[i:i+3] ==  E = text.find(Q, pos) ; if E < 0: <leave> ;
+    pos = E + 1   with Q a one-character constant or a name."""
+    if i + 2 >= len(body):
+        return None
+    c = _find_call(body[i])
+    if c is None or c.func.attr != 'find' or len(c.args) != 2 or c.keywords:
+        return None
+    q = c.args[0]
+    if not ((isinstance(q, ast.Constant) and isinstance(q.value, str)
+             and len(q.value) == 1) or isinstance(q, ast.Name)):
+        return None
+    if unparse(c.args[1]) != 'pos':
+        return None
+    e = body[i].targets[0].id
+    t = body[i + 1]
+    if not (isinstance(t, ast.If) and not t.orelse and unparse(
+            t.test).replace(' ', '') in (f'{e}<0', f'{e}==-1')):
+        return None
+    last = t.body[-1]
+    if not isinstance(last, (ast.Return, ast.Break, ast.Raise)):
+        return None
+    if any(isinstance(x, ast.Name) and x.id in ('pos', e)
+           for st_ in t.body for x in ast.walk(st_)):
+        return None
+    a = body[i + 2]
+    if not (isinstance(a, ast.Assign) and unparse(a.targets[0]) == 'pos'
+            and unparse(a.value).replace(' ', '') in (f'{e}+1', f'1+{e}')):
+        return None
+    # the search result must not be used afterwards
+    for st_ in body[i + 3:]:
+        if any(isinstance(x, ast.Name) and x.id == e for x in ast.walk(st_)):
+            return None
+    return q, t.body
+
+
+def _rewrite_find_jump(body, i, q, leave):
+    new = _parse(
+        'while True:\n'
+        '    if pos >= size:\n'
+        '        pass\n'
+        '    char = text[pos]\n'
+        '    pos += 1\n'
+        f'    if char == {unparse(q)}:\n'
+        '        break\n')
+    new[0].body[0].body = [clone(x) for x in leave]
+    _copy_loc(new, body[i])
+    body[i:i + 3] = new
+
+
+# ------------------------------------------------- span -> buffer conversion
+def _convert_spans(f, verdicts):
+    """``S = pos - 1 ... text[S:pos]``: the lexeme is everything the cursor
+    moved over since S.  Rewritten to the buffer form the extraction models:
+    the buffer starts with the character that opened the lexeme and every
+    forward move of the cursor appends the character moved over."""
+    n = 0
+    for body in _blocks(f):
+        for j0, st in enumerate(body):
+            if not (isinstance(st, ast.Assign) and len(st.targets) == 1
+                    and isinstance(st.targets[0], ast.Name)):
+                continue
+            try:
+                lf = _lin(st.value, {'pos': {'pos': 1}})
+            except (AnalysisError, _NeedCase):
+                continue
+            if lf.get('pos') != 1 or not set(lf) <= {'pos', 1}:
+                continue
+            sname = st.targets[0].id
+            if sname in ('pos', 'size', 'char', 'text'):
+                continue
+            tail = body[j0 + 1:]
+            uses = []
+            for x in [y for t_ in tail for y in ast.walk(t_)]:
+                if isinstance(x, ast.Subscript) and isinstance(
+                        x.value, ast.Name) and x.value.id == 'text' and \
+                        isinstance(x.slice, ast.Slice) and isinstance(
+                            x.slice.lower, ast.Name) and \
+                        x.slice.lower.id == sname:
+                    uses.append(x)
+            if not uses:
+                continue
+            k0 = lf.get(1, 0)
+            verdicts.append(Verdict(
+                k0 == -1, f'lexeme slice starts at pos{k0:+d}',
+                f'the lexeme is the slice starting at pos{k0:+d}; the '
+                'character that started it was read at pos-1: the lexeme '
+                'loses or gains a character at its beginning', st))
+            end_ok = all(isinstance(u.slice.upper, ast.Name)
+                         and u.slice.upper.id == 'pos'
+                         and u.slice.step is None for u in uses)
+            verdicts.append(Verdict(
+                end_ok, 'lexeme slice ends at the cursor',
+                'the lexeme slice does not end at the position where the '
+                'scan stopped: characters are lost or taken from the next '
+                'lexeme', st))
+            buf = f'__span_buf{n}'
+            n += 1
+            # region: up to the statement containing the last use
+            last = max(idx for idx, t_ in enumerate(tail)
+                       if any(u in list(ast.walk(t_)) for u in uses))
+            region = tail[:last + 1]
+            if _assigns(region, sname):
+                raise AnalysisError('scanner idiom: slice start reassigned')
+
+            def conv(blk):
+                i_ = 0
+                while i_ < len(blk):
+                    s_ = blk[i_]
+                    if isinstance(s_, ast.Assign) and unparse(
+                            s_.value) == 'text[pos]' and unparse(
+                                s_.targets[0]) == 'char' and i_ + 1 < len(
+                                    blk) and _is_inc(blk[i_ + 1]):
+                        blk.insert(i_ + 2, _copy_loc(
+                            _parse(f'{buf}.append(char)'), s_)[0])
+                        i_ += 3
+                        continue
+                    if _is_inc(s_):
+                        blk.insert(i_, _copy_loc(
+                            _parse(f'{buf}.append(text[pos])'), s_)[0])
+                        i_ += 2
+                        continue
+                    if any(isinstance(x, (ast.Assign, ast.AugAssign))
+                           and 'pos' in [unparse(t2) for t2 in (
+                               x.targets if isinstance(x, ast.Assign)
+                               else [x.target])]
+                           for x in [s_]):
+                        raise AnalysisError(
+                            'scanner idiom: cursor moved by '
+                            f'"{unparse(s_)}" inside a slice-delimited '
+                            'lexeme')
+                    for fld in ('body', 'orelse', 'finalbody'):
+                        b_ = getattr(s_, fld, None)
+                        if isinstance(b_, list) and b_ and isinstance(
+                                b_[0], ast.stmt):
+                            conv(b_)
+                    i_ += 1
+
+            conv(region)
+            for u in uses:
+                newc = _parse(f"''.join({buf})")[0].value
+                _copy_loc([newc], u)
+                u.__class__ = ast.Call
+                u.__dict__.clear()
+                u.__dict__.update(newc.__dict__)
+            init = _parse(f'{buf} = [char]' if k0 == -1 else f'{buf} = []')
+            _copy_loc(init, st)
+            body[j0:j0 + 1] = init
+            body[j0 + 1:j0 + 1 + len(region)] = region
+            return True
+    return False
+
+
 # -------------------------------------------------------------------- driver
 def _blocks(f):
     """All statement lists of the function (for in-place rewriting)."""
@@ -663,6 +817,13 @@ def normalised_scanner(m, fname='parse_smtlib'):
                                  f'character loop (line {st.lineno})')
                     changed = True
                     break
+                fj = _is_find_jump(body, i)
+                if fj is not None:
+                    _rewrite_find_jump(body, i, fj[0], fj[1])
+                    notes.append('find-and-jump rewritten to a character '
+                                 f'loop (line {st.lineno})')
+                    changed = True
+                    break
                 if _find_call(st) is not None:
                     _rewrite_find(body, i, verdicts, orig_of, start_chars)
                     notes.append('find/slice scan rewritten to a '
@@ -671,6 +832,13 @@ def normalised_scanner(m, fname='parse_smtlib'):
                     break
             if changed:
                 break
+    nsp = 0
+    while _convert_spans(f, verdicts):
+        nsp += 1
+        if nsp > 10:
+            raise AnalysisError('scanner normalisation does not converge')
+    if nsp:
+        notes.append(f'{nsp} slice-delimited lexeme(s) rewritten to buffers')
     ast.fix_missing_locations(f)
     _set_parents(f)
     _cache[k] = (f, verdicts, notes)
